@@ -15,6 +15,7 @@ from . import common as H
 from .C07 import pauli_matrix, all_paulis, eq_arr, bits, convention_selfcheck
 
 U8 = np.uint8
+VIEW_TOUCHES = ((), ('sign',), ('str_', 'np_list'), ('full_matrix',))
 HERE = os.path.dirname(os.path.abspath(__file__))
 
 
@@ -152,6 +153,19 @@ def replay(p):
         MP, MQ = pauli_matrix(P), pauli_matrix(Q)
         want = np.abs(MP @ MQ - MQ @ MP).max() < 1e-12
         return (got != want), f'commutate_with wrong for P={P.tolist()} Q={Q.tolist()}'
+    if what == 'views':
+        P, Q = arr('P'), arr('Q')
+        for touch in VIEW_TOUCHES:
+            a, b = PauliOperator(P), PauliOperator(Q)
+            for nm in touch:
+                getattr(a, nm)
+                getattr(b, nm)
+            for tag, x in (('P.inverse()', a.inverse()), ('P@Q', a @ b), ('P.inverse().inverse()', a.inverse().inverse()), ('(P@Q).inverse()', (a @ b).inverse())):
+                s_, g_ = gp.pauli_F2_to_str(x.F2)
+                M = pauli_matrix(x.F2)
+                if x.str_ != s_ or x.sign != g_ or np.abs(x.full_matrix - M).max() > 1e-12 or np.abs(g_ * gp.hf_kron(x.np_list) - M).max() > 1e-12:
+                    return True, f'{tag}: views (str_, sign, np_list, full_matrix) = ({x.str_},{x.sign}) disagree with its F2 bits {x.F2.tolist()} after reading {touch} of the operands (P={P.tolist()}, Q={Q.tolist()})'
+        return False, 'views agree with the F2 bits'
     if what == 'full':
         P = arr('P')
         return (np.abs(PauliOperator(P).full_matrix - pauli_matrix(P)).max() > 1e-12), f'full_matrix wrong for {P.tolist()}'
@@ -264,6 +278,41 @@ def run(chk):
             chk.add(f'P.inverse() == reference inverse incl. phase [n={n}]', path.pc, eq_arr(inv, ref_inverse(P, n, itab)), key='PauliOperator.inverse', replay=rp('inv'))
             rba = ref_product(Q, P, n, tab)
             chk.add(f'commutate_with(P,Q) <=> PQ == QP (reference) [n={n}]', path.pc, ir.beq(S.as_sb(comm).n, eq_arr(rprod, rba)), key='PauliOperator.commutate_with', replay=rp('comm'))
+        # ---- histories: every view (str_, sign, np_list, full_matrix) of an operator obtained through the algebra denotes its own F2 bits,
+        #      whichever lazily cached views of the operands were read before (n=1: pairs, n<=2: inverse chains)
+        for touch in VIEW_TOUCHES if n == 1 else VIEW_TOUCHES[:2]:
+            chk.configurations += 1
+
+            def f_views(touch=touch, n=n):
+                a, b = PauliOperator(P), PauliOperator(Q)
+                for nm in touch:
+                    getattr(a, nm)
+                    if n == 1:
+                        getattr(b, nm)
+                rs = [a.inverse(), a.inverse().inverse()] + ([a @ b, (a @ b).inverse()] if n == 1 else [])
+                return [(x.F2, x.str_, x.sign, x.np_list, x.full_matrix) for x in rs]
+            try:
+                paths, st = H.run_paths(f_views, [], max_paths=5000)
+            except S.EngineError as e:
+                chk.engine_error(f'PauliOperator views n={n}', e)
+                paths = []
+            chk.add_path_stats(st)
+            rpv = ('c08', lambda m, P=P, Q=Q: bp(m, {'P': P, 'Q': Q}, what='views'))
+            for pi, path in enumerate(paths):
+                if path.status != 'return':
+                    chk.add(f'PauliOperator views raise {type(path.value).__name__} [n={n}, read first: {touch}] path {pi}', path.pc, ir.FALSE, key='PauliOperator views raise', replay=rpv)
+                    continue
+                cl = []
+                for f2, s_, g_, nl, fm in path.value:
+                    try:
+                        want = gp.pauli_str_to_F2(s_, complex(g_))           # concrete on the path (string routines are claimed separately)
+                        M = pauli_matrix(want)
+                        okm = np.abs(np.asarray(fm, dtype=complex) - M).max() < 1e-12 and np.abs(complex(g_) * gp.hf_kron([np.asarray(v) for v in nl]) - M).max() < 1e-12
+                        cl.append(ir.band(eq_arr(f2, A.sym_array([S.bv_const(int(v), U8) for v in want], U8)), ir.bconst(bool(okm))))
+                    except Exception:                                         # noqa: BLE001
+                        cl.append(ir.FALSE)
+                chk.add(f'views of P.inverse(), P.inverse().inverse()' + (', P@Q, (P@Q).inverse()' if n == 1 else '') + f' denote their own F2 bits [n={n}, read first: {touch}] path {pi}',
+                        path.pc, ir.band_all(cl), key='PauliOperator cached views', replay=rpv)
         # ---- F2 -> str -> F2 (paths fork on letters and phase), with the string's matrix meaning checked on the path
         def f_str():
             s, sg = gp.pauli_F2_to_str(P)
